@@ -51,7 +51,7 @@ class SymSparse(_sps.spmatrix):
         data = _np.asarray(data, dtype=object)
         if len(indices) != len(data) or indptr[-1] != len(data):
             raise ValueError("inconsistent compressed arrays assigned to SymSparse")
-        shape = self._A.shape
+        shape = pend.get("shape", self._A.shape)
         csc = self.format == "csc"
         D = _np.empty(shape, dtype=object)
         D.fill(0)
@@ -78,7 +78,20 @@ class SymSparse(_sps.spmatrix):
 
     @property
     def _shape(self):
-        return self.A_.shape
+        if self._pend:
+            # stack_mat / stack_diag assign the compressed arrays first and the shape last
+            return self._pend.get("shape", self._A.shape)
+        return self._A.shape
+
+    @_shape.setter
+    def _shape(self, v):
+        v = (int(v[0]), int(v[1]))
+        if not self._pend:
+            if v != self._A.shape:
+                raise ValueError("SymSparse: shape change without new compressed arrays")
+            return
+        self._pend["shape"] = v
+        self._flush()
 
     @property
     def ndim(self):
@@ -208,6 +221,10 @@ class SymSparse(_sps.spmatrix):
 
     @property
     def data(self):
+        if self._pend:
+            # partially re-assigned storage (stack_mat order): plain attribute semantics, no write-through
+            return _np.asarray(self._pend["data"], dtype=object).view(SymArr) if "data" in self._pend \
+                else self._compressed_raw()[0]
         d = self._compressed()[0].view(_DataView)
         d._owner = self
         return d
@@ -234,6 +251,8 @@ class SymSparse(_sps.spmatrix):
 
     @property
     def indices(self):
+        if self._pend:
+            return _np.asarray(self._pend["indices"]) if "indices" in self._pend else self._compressed_raw()[1]
         return self._compressed()[1]
 
     @indices.setter
@@ -242,6 +261,8 @@ class SymSparse(_sps.spmatrix):
 
     @property
     def indptr(self):
+        if self._pend:
+            return _np.asarray(self._pend["indptr"]) if "indptr" in self._pend else self._compressed_raw()[2]
         return self._compressed()[2]
 
     @indptr.setter
